@@ -23,7 +23,7 @@ from .c07 import thicknesses, self_test
 TILT = {"none": (0.0, 0.0), "pos": (5.0, 3.0), "neg": (-5.0, -3.0)}
 
 
-def make_wave(kind, gpts, extent, tilt, rng, energy=100e3):
+def make_wave(kind, gpts, extent, tilt, rng, energy=100e3, band=0.55):
     import abtem
     g = np.random.default_rng(rng.randrange(1 << 30))
     if kind == "plane":
@@ -36,7 +36,7 @@ def make_wave(kind, gpts, extent, tilt, rng, energy=100e3):
         kx = np.fft.fftfreq(gpts[0], extent[0] / gpts[0])
         ky = np.fft.fftfreq(gpts[1], extent[1] / gpts[1])
         k = np.sqrt(kx[:, None] ** 2 + ky[None, :] ** 2)
-        kcut = min(np.abs(kx).max(), np.abs(ky).max()) * 0.55       # well inside the 2/3 antialias aperture (taper included)
+        kcut = min(np.abs(kx).max(), np.abs(ky).max()) * band       # 0.55: well inside the 2/3 antialias aperture (taper included)
         X[k > kcut] = 0
         x = np.fft.ifft2(X)
     from abtem.core.utils import get_dtype
@@ -67,7 +67,10 @@ def make_potential(kind, n, unequal, gpts, extent, rng):
     return abtem.PotentialArray(a, slice_thickness=tuple(th), extent=extent)
 
 
-def run_case(c, rng, double=False):
+WIDE = {"antialias.cutoff": 0.9, "antialias.taper": 0.02}      # a configured aperture wider than the shipped 2/3 (open below 0.86 Nyquist)
+
+
+def run_case(c, rng, double=False, wide=False):
     import abtem
     from abtem.multislice import FourierMultislice, FresnelPropagator
     gpts, extent = (24, 20), ((6.0, 6.0) if (c["slices"] + c["order"]) % 2 else (6.0, 8.75))     # square and rectangular cells
@@ -75,14 +78,25 @@ def run_case(c, rng, double=False):
           "conserved_ppb": 0, "reverse_ppb": 0, "double": double, "reuse_gain_ppb": 0}
     sink = Sink()
     try:
-        with abtem.config.set({"precision": "float64" if double else "float32"}):
-            wave = make_wave(c["wave"], gpts, extent, TILT[c["tilt"]], rng)
+        with abtem.config.set(dict({"precision": "float64" if double else "float32"}, **(WIDE if wide else {}))):
+            # under the wide configuration the band-limited wave lives between the shipped and the configured aperture (0.8 Nyquist)
+            wave = make_wave(c["wave"], gpts, extent, TILT[c["tilt"]], rng, band=0.8 if wide else 0.55)
             pot = make_potential(c["pot"], c["slices"], c["unequal"], gpts, extent, rng)
             with sink:
                 out = wave.multislice(pot, algorithm=FourierMultislice(order=c["order"]))
             i0 = float((np.abs(arr(wave)) ** 2).sum())
             i1 = float((np.abs(arr(out)) ** 2).sum())
             ev["conserved_ppb"] = ppb(abs(i1 - i0) / i0)
+            if c["reversible"] and c["pot"] == "vacuum":
+                # the whole multislice run undone by the conjugate algorithm (every slice propagates by -dz), for waves in memory and for
+                # waves backed by a dask array (the algorithm has to survive the trip into the tasks)
+                for lazy in (False, True):
+                    w0 = wave.copy().ensure_lazy() if lazy else wave.copy()
+                    fwd = w0.multislice(pot, algorithm=FourierMultislice(order=c["order"]))
+                    back = fwd.multislice(pot, algorithm=FourierMultislice(order=c["order"], conjugate=True))
+                    ev["reverse_ppb"] = max(ev["reverse_ppb"], ppb(relerr(arr(back), arr(wave))))
+                    i2 = float((np.abs(arr(fwd)) ** 2).sum())
+                    ev["conserved_ppb"] = max(ev["conserved_ppb"], ppb(abs(i2 - i0) / i0))
             if c["reversible"]:
                 p = FresnelPropagator()
                 if c["unequal"]:
@@ -92,7 +106,7 @@ def run_case(c, rng, double=False):
                     p.propagate(other, thickness=3.7, order=c["order"])
                 fwd = p.propagate(wave.copy(), thickness=3.7, order=c["order"])
                 back = FresnelPropagator().propagate(fwd, thickness=-3.7, order=c["order"])
-                ev["reverse_ppb"] = ppb(relerr(arr(back), arr(wave)))
+                ev["reverse_ppb"] = max(ev["reverse_ppb"], ppb(relerr(arr(back), arr(wave))))
                 # one propagator object, two different waves of the same shape propagated in place one after the other
                 q = FresnelPropagator()
                 first = wave.copy()
@@ -143,6 +157,9 @@ def run(ctx: Ctx):
         if j % 4 == 0 or (c["order"] == 2 and c["pot"] == "vacuum"):
             items.append((dict(c, double=True), run_case(c, rng, double=True)))
             ctx.case("f64:" + json.dumps(c, sort_keys=True))
+        if c["wave"] == "random_bandlimited" and (j % 2 == 0 or c["pot"] == "vacuum"):
+            items.append((dict(c, wide=True), run_case(c, rng, wide=True)))
+            ctx.case("wide aperture:" + json.dumps(c, sort_keys=True))
     ctx.exhaustive = True
     for meta, t in items[:1] + items[-1:]:
         ctx.sample({"meta": meta, "trace": t})
@@ -151,7 +168,7 @@ def run(ctx: Ctx):
 
 def replay(ctx: Ctx, case):
     m = case["meta"]
-    t = run_case(m, random.Random(0), double=m.get("double", False))
+    t = run_case(m, random.Random(0), double=m.get("double", False), wide=m.get("wide", False))
     ctx.case("replay")
     ctx.sample({"meta": m, "trace": t})
     judge(ctx, [(m, t)])
